@@ -72,12 +72,25 @@ Lemma firstn_exact {A} (q r : list A) : firstn (length q) (q ++ r) = q.
 Proof. induction q as [|x q IH]; cbn; [reflexivity | f_equal; exact IH]. Qed.
 
 Lemma key_mono q c1 c2 :
-  length c1 = length c2 -> lex_cmp c1 c2 = Lt -> crank (key q c1) <= crank (key q c2).
+  length c1 = length c2 -> lex_cmp c1 c2 <> Gt -> crank (key q c1) <= crank (key q c2).
 Proof.
-  intros Hl Hc. unfold key. apply lex_rank_mono. intros Hg.
-  rewrite <- (firstn_skipn (length q) c1), <- (firstn_skipn (length q) c2) in Hc.
-  rewrite lex_cmp_app in Hc by (rewrite !firstn_length; lia).
-  rewrite Hg in Hc. discriminate.
+  intros Hl Hc. unfold key. apply lex_rank_mono. intros Hg. apply Hc.
+  rewrite <- (firstn_skipn (length q) c1), <- (firstn_skipn (length q) c2).
+  rewrite lex_cmp_app by (rewrite !firstn_length; lia).
+  rewrite Hg. reflexivity.
+Qed.
+
+(* sorted, equal labels allowed (what sort_unstable leaves when labels repeat) *)
+Inductive sorted_le : list elem -> Prop :=
+| sle_nil : sorted_le []
+| sle_cons x l :
+    (forall y, In y l -> lex_cmp (bits_of (e_label x)) (bits_of (e_label y)) <> Gt) ->
+    sorted_le l -> sorted_le (x :: l).
+
+Lemma sorted_bits_le l : sorted_bits l -> sorted_le l.
+Proof.
+  induction 1 as [|x l Hhd Htl IH]; constructor; [|exact IH].
+  intros y Hy. rewrite (Hhd y Hy). discriminate.
 Qed.
 
 Definition cpf (p : nlabel) (c : elem) : comparison :=
@@ -108,7 +121,7 @@ Proof.
 Qed.
 
 Lemma sorted_cpf_mono p : forall l,
-  WF p -> canonical p = true -> elabs_ok l -> sorted_bits l -> same_len l ->
+  WF p -> canonical p = true -> elabs_ok l -> sorted_le l -> same_len l ->
   (forall x, In x l -> (llen p <= llen (e_label x))%N) ->
   mono (map (cpf p) l).
 Proof.
@@ -128,7 +141,7 @@ Proof.
 Qed.
 
 Theorem contains_prefix_sorted_complete_on_sets p l :
-  WF p -> canonical p = true -> elabs_ok l -> sorted_bits l -> same_len l ->
+  WF p -> canonical p = true -> elabs_ok l -> sorted_le l -> same_len l ->
   (forall x, In x l -> (llen p <= llen (e_label x))%N) ->
   existsb (extends p) l = true ->
   eset_contains_prefix (BinarySearchable l) p = true.
@@ -142,8 +155,8 @@ Proof.
 Qed.
 
 (* the two representations answer alike *)
-Theorem contains_prefix_sorted_eq_unsorted p l :
-  WF p -> canonical p = true -> elabs_ok l -> sorted_bits l -> same_len l ->
+Theorem contains_prefix_sorted_eq_unsorted_le p l :
+  WF p -> canonical p = true -> elabs_ok l -> sorted_le l -> same_len l ->
   (forall x, In x l -> (llen p <= llen (e_label x))%N) ->
   eset_contains_prefix (BinarySearchable l) p = eset_contains_prefix (Unsorted l) p.
 Proof.
@@ -160,4 +173,13 @@ Proof.
       destruct (bits_of p); [|discriminate]. cbn in Ex. discriminate.
     + congruence.
     + specialize (Hlen x Hx). lia.
+Qed.
+
+Corollary contains_prefix_sorted_eq_unsorted p l :
+  WF p -> canonical p = true -> elabs_ok l -> sorted_bits l -> same_len l ->
+  (forall x, In x l -> (llen p <= llen (e_label x))%N) ->
+  eset_contains_prefix (BinarySearchable l) p = eset_contains_prefix (Unsorted l) p.
+Proof.
+  intros Hp Cp Hok Hs. apply contains_prefix_sorted_eq_unsorted_le; try assumption.
+  apply sorted_bits_le. exact Hs.
 Qed.
